@@ -208,6 +208,24 @@ def check_reduce(rep, ix):
     cf = ix.get_func(M, '_check_array_reduction')
     g = [(show(nf(t)), neg) for t, neg, n in common.reject_guards(cf)]
     rep.ob('R-C10-REDUCE', f'{M}:_check_array_reduction', 'membership of ARRAY_REDUCTIONS is required', g == [(common.nfs(f'{cf.args.args[0].arg} not in ARRAY_REDUCTIONS'), False)], found=str(g), node=cf, module=m)
+    # every written value is the reduction of the channel's frame by the chosen method (a short cut for `single valued`
+    # channels must not confuse rank with count: shape (4,) has rank 1 and four values)
+    w = ix.get_func(M, 'write_array_section_data_to_las')
+    wp = [a.arg for a in w.args.args]
+    writes = [c for c in common.calls_in(w) if _n(c.func) == f'{wp[5]}.write' and c.args and isinstance(c.args[0], ast.JoinedStr)]
+    vals = set()
+    for c in writes:
+        for v in c.args[0].values:
+            if isinstance(v, ast.FormattedValue) and isinstance(v.value, ast.Name):
+                vals.add(v.value.id)
+    for name in sorted(vals):
+        defs = [n for n in walk_no_nested(w) if isinstance(n, ast.Assign) and any(isinstance(t, ast.Name) and t.id == name for t in n.targets)]
+        if not defs or not any(isinstance(d.value, ast.Call) and _n(d.value.func) == 'array_reduce' for d in defs):
+            continue
+        ok = all(isinstance(d.value, ast.Call) and _n(d.value.func) == 'array_reduce' and len(d.value.args) == 2 and _n(d.value.args[1]) == wp[1]
+                 and _n(d.value.args[0]).startswith('channel.array[') for d in defs)
+        rep.ob('R-C10-REDUCE', f'{M}:write_array_section_data_to_las', f'the value written for a channel is always array_reduce(frame of the channel, {wp[1]})', ok,
+               found='; '.join(_n(d)[:70] for d in defs), required='one definition, the reduction', node=defs[0], module=m)
     from .imports import numpy_names
     names = numpy_names()
     for r in sorted(set(red) - {'first'}):
